@@ -652,7 +652,9 @@ def cN(n):
 
 
 def cnat(n):
-    return "%d" % n
+    """nat literal: unary numerals are slow to elaborate, so larger ones go through N.to_nat
+    (`n` is defined in the case header: Definition n (x : N) := N.to_nat x)"""
+    return "%d" % n if n < 4 else "(n %d)" % n
 
 
 def clist(xs):
@@ -697,12 +699,12 @@ def prob_idN(p):
 
 def cfn(name):
     if name.startswith("body_"):
-        return "(FBody %d)" % int(name[5:])
+        return "(FBody %s)" % cnat(int(name[5:]))
     return "(FU %s)" % cN(NAME_ID[name])
 
 
 def copt_nat(x):
-    return "None" if x is None else "(Some %d)" % x
+    return "None" if x is None else "(Some %s)" % cnat(x)
 
 
 def cnode(t):
@@ -712,31 +714,31 @@ def cnode(t):
     if k == "fact":
         return "NFact %s %s %s" % (cfn(t[1]), cterms(t[2]), prob_id(t[3]))
     if k == "clause":
-        return "NClause %s %s %s %d %d %s" % (cfn(t[1]), cterms(t[2]), prob_id(t[3]), t[4], t[5], copt_nat(t[6]))
+        return "NClause %s %s %s %s %s %s" % (cfn(t[1]), cterms(t[2]), prob_id(t[3]), cnat(t[4]), cnat(t[5]), copt_nat(t[6]))
     if k == "define":
-        return "NDefine %s %d %s" % (cfn(t[1]), t[2], clist([cnat(c) for c in t[3]]))
+        return "NDefine %s %s %s" % (cfn(t[1]), cnat(t[2]), clist([cnat(c) for c in t[3]]))
     if k == "call":
         if t[3] < 0:
             return "NBuiltin %s %s %s" % (cN(NAME_ID[t[1]]), cterms(t[2]), cN(-t[3]))
-        return "NCall %s %s %d" % (cfn(t[1]), cterms(t[2]), t[3])
+        return "NCall %s %s %s" % (cfn(t[1]), cterms(t[2]), cnat(t[3]))
     if k == "callchoice":
-        return "NCallChoice %d %d %s %s %d" % (t[1], t[2], cterm(t[3]), cterms(t[4]), t[5])
+        return "NCallChoice %s %s %s %s %s" % (cnat(t[1]), cnat(t[2]), cterm(t[3]), cterms(t[4]), cnat(t[5]))
     if k == "conj":
-        return "NConj %d %d" % (t[1], t[2])
+        return "NConj %s %s" % (cnat(t[1]), cnat(t[2]))
     if k == "disj":
-        return "NDisj %d %d" % (t[1], t[2])
+        return "NDisj %s %s" % (cnat(t[1]), cnat(t[2]))
     if k == "neg":
-        return "NNeg %d" % t[1]
+        return "NNeg %s" % cnat(t[1])
     if k == "choice":
         if t[1] != t[6] or t[2] != t[7]:
             raise ValueError("choice functor and fields disagree: %r" % (t,))
-        return "NChoice %d %d %s %s %s" % (t[1], t[2], cterm(t[3]), cterms(t[4]), prob_id(t[5]))
+        return "NChoice %s %s %s %s %s" % (cnat(t[1]), cnat(t[2]), cterm(t[3]), cterms(t[4]), prob_id(t[5]))
     raise ValueError(k)
 
 
 def csig(s):
     f, ar = s.rsplit("/", 1)
-    return "(%s, %d)" % (cfn(f), int(ar))
+    return "(%s, %s)" % (cfn(f), cnat(int(ar)))
 
 
 def clayer_obs(dump, is_root):
@@ -746,8 +748,8 @@ def clayer_obs(dump, is_root):
         fa = dict(heads).get("forall/2")
         redir = [(k, v) for k, v in redir if k != fa]
     return "(%s, %s, %s)" % (clist([cnode(n) for n in nodes]),
-                             clist(["(%s, %d)" % (csig(s), i) for s, i in heads]),
-                             clist(["(%d, %d)" % kv for kv in redir]))
+                             clist(["(%s, %s)" % (csig(s), cnat(i)) for s, i in heads]),
+                             clist(["(%s, %s)" % (cnat(k), cnat(v)) for k, v in redir]))
 
 
 def cbody(b, builtin_ids):
